@@ -173,7 +173,9 @@ pub(crate) unsafe fn bind_gc_obj_string_class(
         ("from_utf8", string_from_utf8 as NativeFn),
         ("from_code_points", string_from_code_points as NativeFn),
     ];
-    let (static_methods, _native_roots) = build_methods(vm, &static_method_map, None);
+    // (class-side methods do not read their receiver)
+    let (static_methods, _native_roots) =
+        build_methods_for(vm, &static_method_map, None, true);
 
     metaclass.as_mut().methods = static_methods;
 
@@ -1007,15 +1009,13 @@ pub fn new_root_obj_fiber_metaclass(
 ) -> Root<ObjClass> {
     let class_name = vm.new_gc_obj_string("FiberClass");
     let yield_method_name = vm.new_gc_obj_string("yield");
-    let yield_method = Root::new(ObjNative::new(
-        yield_method_name,
-        fiber_yield as NativeFn,
-        true,
-    ));
+    let yield_method = Root::new(
+        ObjNative::new(yield_method_name, fiber_yield as NativeFn, true).accepting_instances(),
+    );
     let mut methods = object::new_obj_string_value_map();
     methods.insert(yield_method_name, Value::ObjNative(yield_method.as_gc()));
     let (methods, _native_roots) =
-        build_methods(vm, &[("new", fiber_init as NativeFn)], Some(methods));
+        build_methods_for(vm, &[("new", fiber_init as NativeFn)], Some(methods), true);
     vm.new_root_obj_class(class_name, metaclass, Some(superclass), methods)
 }
 
